@@ -62,6 +62,7 @@ struct vthread {
 	int spec_nest;
 	unsigned long spec_gen;
 	int detached;
+	int joined;
 	uintptr_t stack_lo, stack_sz;
 	int in_rt;			/* inside runtime / predicate: ignore announcements */
 };
@@ -228,7 +229,7 @@ static int choose(int n, const uint8_t *cost)
 	int alt = 0, i, useful = 0;
 
 	if (n > MAXALT)
-		n = MAXALT;
+		finish(ST_INTERNAL, "choice point with %d alternatives (max %d)", n, MAXALT);
 	if (g_devpos < wk->n && wk->d[g_devpos].idx == idx) {
 		alt = wk->d[g_devpos].alt;
 		if (alt >= n || wk->d[g_devpos].cost != cost[alt])
@@ -287,7 +288,18 @@ int vrt_choose(int n)
 	uint8_t c[MAXALT];
 
 	memset(c, C_FREE, sizeof(c));
-	return choose(n, c);
+	if (n > MAXALT) {
+		/* two-level choice: block, then element within the block */
+		int blocks = (n + MAXALT - 1) / MAXALT, hi, lo, rest;
+
+		if (blocks > MAXALT)
+			finish(ST_INTERNAL, "vrt_choose(%d): too many alternatives", n);
+		hi = choose(blocks, c);
+		rest = n - hi * MAXALT;
+		lo = choose(rest > MAXALT ? MAXALT : rest, c);
+		return hi * MAXALT + lo;
+	}
+	return n > 1 ? choose(n, c) : 0;
 }
 
 #include "vrt_mem.inc"
